@@ -395,6 +395,11 @@ struct event_base {
 
 	/** "Prepare" and "check" watchers. */
 	struct evwatch_list watchers[EVWATCH_MAX];
+	/** While event_base_loop is invoking the prepare or check watchers:
+	 * the watcher it will invoke after the running one (NULL otherwise).
+	 * evwatch_free() advances it, so that a watcher callback may free any
+	 * watcher, including itself and the one that is due next. */
+	struct evwatch *watcher_iter_next;
 };
 
 struct event_config_entry {
